@@ -28,6 +28,8 @@ type UCIGenCfg struct {
 	Hash       bool    `json:"hash"`
 	SweepStop  int     `json:"sweep_stop"`          // >0: in every search SweepCmd is sent exactly when the search is parked before this poll (systematic sweep)
 	SweepCmd   string  `json:"sweep_cmd,omitempty"` // stop (default) | quit | eof | isready | ponderhit
+	Merge      bool    `json:"merge,omitempty"`     // several lines per write
+	NoEOL      bool    `json:"no_eol,omitempty"`    // the last line of the session is not newline-terminated
 	NoClock    bool    `json:"no_clock,omitempty"`  // only requests whose outcome cannot depend on the clock (driver twins)
 }
 
@@ -47,6 +49,8 @@ func drawUCIGenCfg(rng *rand.Rand, stub bool) UCIGenCfg {
 	c.CRLF = rng.IntN(8) == 0
 	c.Spsa = SpsaBuild && rng.IntN(2) == 0
 	c.Hash = rng.IntN(4) == 0
+	c.Merge = rng.IntN(3) == 0
+	c.NoEOL = rng.IntN(6) == 0
 	return c
 }
 
@@ -79,10 +83,12 @@ type uciGen struct {
 	lastBest    string
 	goCount     int
 	newGameNext bool
+	mergeLines  bool
 }
 
 func newUCIGen(rng *rand.Rand, cfg UCIGenCfg, sc *UCIScenario) *uciGen {
 	g := &uciGen{rng: rng, cfg: cfg, sc: sc, game: ref.NewGame(ref.MustFEN(ref.StartFEN))}
+	g.mergeLines = cfg.Merge
 	return g
 }
 
@@ -116,6 +122,12 @@ func (g *uciGen) send(line string) {
 func (g *uciGen) pop() UStep {
 	s := g.queue[0]
 	g.queue = g.queue[1:]
+	// a GUI may write several lines at once: merge adjacent whole-line writes
+	for s.Op == "in" && strings.HasSuffix(s.Data, "\n") && len(g.queue) > 0 && g.queue[0].Op == "in" &&
+		strings.HasSuffix(g.queue[0].Data, "\n") && g.mergeLines && g.rng.IntN(2) == 0 {
+		s.Data += g.queue[0].Data
+		g.queue = g.queue[1:]
+	}
 	return s
 }
 
@@ -322,9 +334,13 @@ func (g *uciGen) idle(w *uciWorld) {
 		}
 	case 1:
 		if g.turns >= g.cfg.MaxTurns {
-			if r.IntN(2) == 0 {
+			switch {
+			case g.cfg.NoEOL:
+				// end of input right after an unterminated last line
+				g.queue = append(g.queue, UStep{Op: "in", Data: pick(r, []string{"quit", "isready", "stop"})}, UStep{Op: "eof"})
+			case r.IntN(2) == 0:
 				g.send("quit")
-			} else {
+			default:
 				g.queue = append(g.queue, UStep{Op: "eof"})
 			}
 			g.ended = true
@@ -369,6 +385,10 @@ func (g *uciGen) idle(w *uciWorld) {
 			g.sc.Stubs = append(g.sc.Stubs, sg)
 		}
 		g.send(line)
+		if r.IntN(10) == 0 {
+			// the next command is already in the pipe when the go line is read
+			g.send(pick(r, []string{"stop", "isready", "isready"}))
+		}
 		g.stage = 2
 		g.goCount++
 	}
